@@ -35,7 +35,7 @@ ASSUMPTIONS = ['lemma blocks have the shape the slicer documents: `${ $d/$e ... 
 SEEDS = list(range(8))
 FLOORS = {'quick': {'databases': 300, 'databases_with_nested_blocks': 100, 'databases_with_dv': 100, 'databases_with_e': 100,
                     'roundtrips_checked': 2400, 'slices_verified': 1000, 'slices_with_hyps': 100, 'slices_with_dv': 30, 'slices_using_earlier_lemma': 60,
-                    'shipped_databases': 10, 'roundtrip_only_databases_checked': 200, 'shipped_slices_verified': 500, 'databases_with:clash_token_is_variable': 20, 'databases_with:empty_label_list': 30, 'databases_with:very_long_lines': 10, 'databases_with:clash_token_is_constant': 20, **{f'seed_runs:{s}': 300 for s in SEEDS}}}
+                    'shipped_databases': 10, 'roundtrip_only_databases_checked': 200, 'shipped_slices_verified': 500, 'databases_with:clash_token_is_variable': 20, 'databases_with:empty_label_list': 30, 'databases_with:very_long_lines': 10, 'databases_with:two_global_dv_around_an_axiom': 15, 'databases_with:flat_block_with_two_assertions': 15, 'databases_with:clash_token_is_constant': 20, **{f'seed_runs:{s}': 300 for s in SEEDS}}}
 FLOORS['thorough'] = dict(FLOORS['quick'], databases=4000, slices_verified=12000, roundtrips_checked=32000)
 
 REPO = Path(os.environ.get('PI2_REPO', '/repo'))
@@ -349,7 +349,7 @@ def shard(ctx):
                 ctx.count('databases_with_dv')
             if 'rule_with_hyps' in f or 'lemma_with_hyps' in f:
                 ctx.count('databases_with_e')
-            for x in ('twin_blocks', 'global_dv', 'late_f', 'uses_twin_first', 'uses_twin_second', 'uses_nested_rule', 'uses_dv_axiom',
+            for x in ('twin_blocks', 'flat_block_with_two_assertions', 'two_global_dv_around_an_axiom', 'global_dv', 'late_f', 'uses_twin_first', 'uses_twin_second', 'uses_nested_rule', 'uses_dv_axiom',
                       'clash_token_is_variable', 'clash_token_is_constant'):
                 if x in f:
                     ctx.count('databases_with:' + x)
